@@ -66,6 +66,7 @@ inductive Site where
 inductive PErr where
   | struct | index | type | assert | malformed | truncated | runtime | recursion | fuel
   | known (s : Site)
+  | unmodelled (cls : String)     -- not a Python exception: the operation is outside the model (str() of a TCP segment with MPTCP options)
   deriving DecidableEq, Repr
 
 /-- the Python exception class name (`struct.error.__name__ = "error"`) -/
@@ -76,6 +77,7 @@ def PErr.toString : PErr → String
   | .known .k5v => "ValueError" | .known .k5i => "IndexError" | .known .k6 => "RuntimeError" | .known .k7 => "RuntimeError"
   | .known .k8 => "error" | .known .k9 => "error" | .known .k10 => "error" | .known .k13 => "error"
   | .known .k14 => "OSError|ValueError|UnicodeDecodeError"
+  | .unmodelled c => "unmodelled:" ++ c
 
 def Site.name : Site → String
   | .k5v => "K5" | .k5i => "K5" | .k6 => "K6" | .k7 => "K7" | .k8 => "K8" | .k9 => "K9" | .k10 => "K10" | .k13 => "K13"
@@ -1535,9 +1537,39 @@ def llcStr (cfg : Cfg) (h : Llc) : P Unit :=
   else if cfg.llcStrGuard then pure ()
   else .error .type
 
-/-- `dump()` (= `str()` of every layer) -/
+/-- `"%d" % v`, `"%i" % v`, `"%02x" % v`, `"%04x" % v`: a number formats; `None` is a TypeError (`%s` and `str()` take anything) -/
+def fmtNum : Option Nat → P Unit
+  | some _ => pure ()
+  | none => .error .type
+
+/-- `__str__` of a parsed object of a phase-2 class: the operations in it that can raise, in order.
+
+* ipv6, icmpv6, dns, dhcp define `_to_str`; `packet_base.__str__` (packet_base.py:97-107) calls it inside `try … except Exception`
+  and returns "[cls:Bad representation]" when it raises: nothing escapes, whatever `_to_str` does.
+* the NDP messages and the ICMPv6 error messages inherit `icmp_base.__str__` (icmpv6.py:407-413): `"%s:%s"` of the `_fields()`
+  items (`%s` takes anything; the option objects' `__repr__` is `"%s:%s"` of their fields again).
+* mpls, vxlan, rip (+`RIPEntry.__str__`), igmp (+`GroupRecord.__str__`), icmpv6 unreach: `str()` / `%s` only, and igmp's `%02x` of the
+  type octet.
+* eapol `%d` of the version; eap `%d` of the id, the type only `if hasattr(self, 'type')`; icmpv6 echo `%i` of id and seq;
+  gre `%04x` of the checksum only `if isinstance(self.csum, int)`, key / sequence number only `if … is not None`. -/
+def extStr : Ext → P Unit
+  | .ipv6 _ | .icmp6 _ | .dns _ | .dhcp _ => pure ()
+  | .ndRS _ | .ndRA _ _ _ _ _ _ | .ndNS _ _ | .ndNA _ _ _ | .timeEx6 | .tooBig6 _ => pure ()
+  | .mpls _ | .vxlan _ | .rip _ | .unreach6 _ => pure ()
+  | .igmp h => fmtNum (some h.vt)
+  | .eapol h => fmtNum (some h.version)
+  | .eap h => fmtNum (some h.id)
+  | .echo6 h => do fmtNum (some h.id); fmtNum (some h.seq)
+  | .gre h => match h.csum with
+    | some c => fmtNum (some c)
+    | none => pure ()
+
+/-- `dump()` (= `str()` of every layer).  An object whose parse gave up (`unparsed`) prints its constructor defaults (numbers, empty
+lists; checked by the differential run, not modelled); a TCP segment with MPTCP options is outside the model. -/
 def printF (cfg : Cfg) : Frame → P Unit
-  | .raw _ | .nil | .unparsed _ _ | .foreign _ _ | .ext _ _ _ => pure ()
+  | .raw _ | .nil | .unparsed _ _ => pure ()
+  | .foreign c _ => .error (.unmodelled c)
+  | .ext x _ n => do extStr x; printF cfg n
   | .eth _ _ n | .vlan _ _ n | .arp _ _ n | .ipv4 _ _ n | .udp _ _ n | .tcp _ _ n | .icmp _ _ n | .echo _ _ n
   | .unreach _ _ n | .timeEx _ _ n => printF cfg n
   | .llc h _ _ n => do llcStr cfg h; printF cfg n
